@@ -12,14 +12,19 @@ ID = 'C01'
 LEVEL = 'proof'
 LEVEL_TEXT = ('Unbounded Lean theorems: (a) ALL SIZES of the hand-modelled classes (Properties/C01<Class>.lean, currently '
               'Toric2DCode L>=2, Planar2DCode and RotatedPlanar2DCode L>=1, Toric3DCode L>=2, Planar3DCode and '
-              'RotatedPlanar3DCode L>=1, XCubeCode L>=2, Color666PlanarCode L>=1, Color488Code and Color666ToricCode LxL, '
+              'RotatedPlanar3DCode L>=1, XCubeCode L>=2, Color666PlanarCode L>=1, Color488Code Lx,Ly>=1 (rectangular sizes '
+              'included since the repair of get_logicals_x / get_logicals_z, whose column x=7 and row y=1 used the wrong side in '
+              'their loop bounds; regression theorems old_rectangular_anticommutes / old_rectangular_invalid on the 2x3 lattice), '
+              'Color666ToricCode LxL, '
               'L>=1 (qubit lists derived from the stabilizers; periodic identification proved canonical), RhombicPlanarCode '
               'Lx,Ly>=2 Lz>=1, RhombicToricCode all L_i even >=2, HollowPlanar3DCode L>=1 (with or without a cavity; logical Z = '
               'the membrane through the cavity, cross-section x = 3, since the repair of get_logicals_z), '
               'RotatedToric3DCode Lx,Ly>=2 not both odd, Lz>=1 (k=2 even x even, k=1 with a defect line; explicit family of '
               'n-k independent generators for both parities) -- all with the full valid_code incl. rank; Color3DCode all L_i '
               'even >= 2 (wf of the derived qubit list, commutation, the 9x9 pairing table of strings and membranes; periodic '
-              'wrap removed through centred differences, overlaps as kernel-evaluated finite functions; rank by instances), '
+              'wrap removed through centred differences, overlaps as kernel-evaluated finite functions; Z-type half of the rank '
+              'clause for every size: z_generators_independent_partial, 2 LxLyLz - 3 independent cell generators with a peeling '
+              'order, evaluated on the implementation matrix each run; X-type half and full rank by instances), '
               'HollowRhombicCode Lx,Ly>=2, Lz>=3 (wf, commutation incl. the key-count selection rule of the triangle loop, '
               'pairing for every size; rank clause: EXACT CHARACTERISATION valid_iff_not_deficient - a size of the family is a '
               'valid [[n,1]] code (rank n-1) iff it is not Deficient, the decidable predicate "hole one layer thin in one '
@@ -150,8 +155,9 @@ def cases_for(ctx, deep):
             for s in [extra[i] for i in sorted(rng.choice(len(extra), min(len(extra), 6), replace=False))] if extra else []:
                 d = defs[int(rng.integers(0, len(defs)))]
                 cases.append({'class': cls, 'size': list(s), 'deform': [d[0], d[1]]})
-    # documented-but-unsupported sizes (where known findings live)
-    for cls in ('Color488Code', 'Color666ToricCode'):
+    # documented-but-unsupported sizes (where known findings live); the rectangular sizes of
+    # Color488Code are ordinary supported sizes (table sizes above) since the repair of its logicals
+    for cls in ('Color666ToricCode',):
         for s in ((1, 2), (2, 1), (2, 3), (3, 2)):
             cases.append({'class': cls, 'size': list(s), 'deform': [None, {}], 'nonsquare': True})
     # inside the supported family, beyond the table bound: a known rank deficiency
